@@ -25,6 +25,9 @@ type Object struct {
 type MapEntry struct{ K, V Value }
 type MapObj struct {
 	Entries []MapEntry
+	// Extra (xsync.MapOf model only): a term added to Size() — "the table also holds this many other entries whose keys
+	// differ from every key the code under test looks up" (verifrt.MapExtraSize)
+	Extra *Term
 }
 
 type ChanObj struct {
